@@ -2,6 +2,7 @@ import Btcdeb
 import Driver.Run
 import Driver.Gen
 import Driver.Session
+import Driver.Exec
 open Btcdeb
 
 namespace Driver
@@ -70,6 +71,8 @@ def dispatch (spec : Bool) (line : String) : String :=
   | "SNSWEEP" :: a => cmdSNSWEEP a
   | "RUN" :: a => cmdRun spec false a
   | "RUNV" :: a => cmdRun spec true a
+  | "EXEC" :: a => cmdExec spec a
+  | ["ERRSTR", n] => Gen.scriptErrString.getD n.toNat! "?"
   | "SESSION" :: a => cmdSession spec false a
   | "SESSIONV" :: a => cmdSession spec true a
   | [""] => ""
